@@ -9,6 +9,7 @@ import MstVerif.Model.Level
 import MstVerif.Model.SipHash
 import MstVerif.Model.Traverse
 import MstVerif.Model.Diff
+import MstVerif.Model.Sync
 import Std.Data.HashMap
 
 namespace Mst.Driver
@@ -85,6 +86,10 @@ inductive Slot where
 structure St where
   trees : Std.HashMap Nat Slot := {}
   lists : Std.HashMap Nat (List R) := {}
+  /-- replicas of the sync model: (replica, level base) -/
+  reps : Std.HashMap Nat (Replica Bytes Bytes Bytes × Nat) := {}
+  /-- key digests seen so far (the sync ops need the level of fetched keys) -/
+  kds : Std.HashMap Bytes Bytes := {}
 
 def serOf (t : T) : Except String (Option (List R)) := t.serialise
 
@@ -100,6 +105,9 @@ def diffTrees (st : St) (a b : Nat) : String :=
   | some .poisoned, _ => "poisoned"
   | _, some .poisoned => "poisoned"
   | _, _ => "bad-op"
+
+def parseMerge (s : String) : Option Merge :=
+  if s = "join" then some .joinMax else if s = "peer" then some .peerWins else none
 
 def step (st : St) (line : String) : St × String :=
   match line.trimAscii.toString.splitOn " " with
@@ -231,6 +239,55 @@ def step (st : St) (line : String) : St × String :=
     match a.toNat?, b.toNat? with
     | some a, some b => (st, diffTrees st a b ++ " | " ++ diffTrees st b a)
     | _, _ => (st, "bad-op")
+  | "rnew" :: r :: base :: _ =>
+    match r.toNat?, base.toNat? with
+    | some r, some base => ({ st with reps := st.reps.insert r (Replica.empty, base) }, "ok")
+    | _, _ => (st, "bad-op")
+  | ["rwrite", r, k, kd, v, m] =>
+    match r.toNat?, parseBytes k, parseBytes kd, parseBytes v, parseMerge m with
+    | some r, some k, some kd, some v, some m =>
+      match st.reps[r]? with
+      | some (rep, base) =>
+        let kds := st.kds.insert k kd
+        let lvl := fun (key : Bytes) => level (kds.getD key []) base
+        match rep.write lvl m k v with
+        | .ok rep' => ({ st with reps := st.reps.insert r (rep', base), kds := kds }, "ok")
+        | .error _ => ({ st with kds := kds }, "panic")
+      | none => (st, "bad-op")
+    | _, _, _, _, _ => (st, "bad-op")
+  | ["rpull", i, j, m] =>
+    match i.toNat?, j.toNat?, parseMerge m with
+    | some i, some j, some m =>
+      match st.reps[i]?, st.reps[j]? with
+      | some (ri, base), some (rj, bj) =>
+        let lvl := fun (key : Bytes) => level (st.kds.getD key []) base
+        match pullRanges hc ri rj with
+        | .error _ => (st, "panic")
+        | .ok (ranges, _, _) =>
+          match pull lvl hc m ri rj with
+          | .error _ => (st, "panic")
+          | .ok (ri', rj') =>
+            ({ st with reps := (st.reps.insert i (ri', base)).insert j (rj', bj) },
+              showDRs ranges ++ " | " ++ showKVs (fetch rj.store ranges) ++ " | " ++ showKVs ri'.store)
+      | _, _ => (st, "bad-op")
+    | _, _, _ => (st, "bad-op")
+  | ["rhash", r] =>
+    match r.toNat? with
+    | some r =>
+      match st.reps[r]? with
+      | some (rep, base) =>
+        let t := rep.tree.genRootHash hc
+        ({ st with reps := st.reps.insert r ({ rep with tree := t }, base) },
+          match t.rootHash with | some d => hexOf d | none => "panic")
+      | none => (st, "bad-op")
+    | none => (st, "bad-op")
+  | ["rtrav", r] =>
+    match r.toNat? with
+    | some r =>
+      match st.reps[r]? with
+      | some (rep, _) => (st, showEvents (runRecorded none rep.tree.root))
+      | none => (st, "bad-op")
+    | none => (st, "bad-op")
   | ["lvl", d, base] =>
     match parseBytes d, base.toNat? with
     | some d, some base => (st, toString (level d base))
